@@ -8,41 +8,55 @@
 (*   yobj      a YAMLObject subclass with yaml_tag; its yaml_loader is     *)
 (*             left at the default, or names one loader class ("one"), or  *)
 (*             a list of loader classes ("list")                           *)
+(*   yobjsub   a subclass (own yaml_tag) of the YAMLObject class defined   *)
+(*             in an EARLIER step "par"; it has no yaml_loader of its own  *)
+(*             ("inherit") or names one class / a list, like yobj          *)
 (*   ctor      L.add_constructor(tag, f)                                   *)
 (*   multi     L.add_multi_constructor(prefix, f)                          *)
 (*   modctor   yaml.add_constructor(tag, f[, Loader=L])                    *)
 (*   modmulti  yaml.add_multi_constructor(prefix, f)                       *)
 (*   subctor   class U(L): pass;  U.add_constructor(tag, f)                *)
+(* or is a round of loads ("load": documents that carry the tags defined   *)
+(* so far go through every entry point; later steps then meet whatever the *)
+(* loads left behind).  Every ORDER of the steps is a different history:   *)
+(* classes that opt in to a safe loader before / after classes that do     *)
+(* not, registrations before / after loads.                                *)
 (*                                                                         *)
 (* H (want, req): who is meant to see a registration follows from the      *)
-(* documented interface alone: the named class(es); without a name the     *)
+(* documented interface alone: the named class(es) - for a YAMLObject      *)
+(* class the yaml_loader it names itself, else the one its base class      *)
+(* names; without a name the                                               *)
 (* documented default [Loader, FullLoader, UnsafeLoader]; a registration on *)
 (* a user subclass is seen by no shipped class.  A confined loader class   *)
 (* (the six safe/base classes of C01, the two full classes of C04) that    *)
 (* the application did NOT register a tag on is held to the statements on  *)
 (* documents that carry the tag: Safe rejects it, Base ignores it, Full    *)
 (* does not run the registered code.  A class the application registered   *)
-(* the tag on is no longer "the safe loader" for that tag: free.           *)
+(* the tag on is no longer "the safe loader" for that tag: free.  What is  *)
+(* demanded for the tag of step i depends on step i (and the classes it    *)
+(* derives from) only - never on what was defined before or after it, nor  *)
+(* on loads (OrderFree).                                                   *)
 (*                                                                         *)
 (* L (ltab, deflist): how __init__.py / constructor.py do it: the          *)
-(* metaclass registers on every class of cls.yaml_loader, which - when the *)
-(* class body does not set it - is the ONE list object                     *)
+(* metaclass registers on every class of cls.yaml_loader (attribute lookup *)
+(* along the MRO), which - when no class body on the way sets it - is the  *)
+(* ONE list object                                                         *)
 (* YAMLObject.yaml_loader shared by all such classes (deflist; no step     *)
 (* writes to it); add_constructor writes to the named class's own table    *)
 (* (copy-on-write, modelled in Registry.tla); the module-level helpers     *)
-(* spell out the three default classes.                                    *)
+(* spell out the three default classes; a load writes to no table.         *)
 (*                                                                         *)
 (* TLC checks L = H on every history (PreludeRefines, DefaultFrozen); the  *)
 (* harness replays every history in a forked child through the real        *)
 (* classes, compares the live tables with ltab (drift) and loads documents *)
 (* that carry each step's tag with every confined entry point under the    *)
-(* instruments of C01/C04; the observations are judged by Trace_Confine    *)
-(* with req.                                                               *)
+(* instruments of C01/C04 - at every "load" step and at the end; the       *)
+(* observations are judged by Trace_Confine with req.                      *)
 (***************************************************************************)
 EXTENDS Naturals, Sequences, FiniteSets, TLC
 
 CONSTANTS MaxSteps,        \* length of a history
-          Ops,             \* subset of {"yobj", "ctor", "multi", "modctor", "modctorx", "modmulti", "subctor"}
+          Ops,             \* subset of {"yobj", "yobjsub", "ctor", "multi", "modctor", "modctorx", "modmulti", "subctor", "load"}
           Singles,         \* loader classes a step may name alone
           Lists,           \* loader-class lists a YAMLObject may name (as sets: the order of a list plays no role)
           SubBases         \* shipped classes the application subclasses
@@ -60,22 +74,37 @@ Range(s) == {s[i] : i \in DOMAIN s}
 \* the documented default of YAMLObject.yaml_loader and of add_constructor(..., Loader=None)
 Default == <<"Loader", "FullLoader", "UnsafeLoader">>
 
-Step(op, on, form) == [op |-> op, on |-> on, form |-> form]
-Steps ==
-  (IF "yobj" \in Ops THEN {Step("yobj", {}, "default")} \cup {Step("yobj", {l}, "one") : l \in Singles}
-                          \cup {Step("yobj", ls, "list") : ls \in Lists} ELSE {})
-  \cup (IF "ctor" \in Ops THEN {Step("ctor", {l}, "one") : l \in Singles} ELSE {})
-  \cup (IF "multi" \in Ops THEN {Step("multi", {l}, "one") : l \in Singles} ELSE {})
-  \cup (IF "modctor" \in Ops THEN {Step("modctor", {}, "default")} ELSE {})
-  \cup (IF "modctorx" \in Ops THEN {Step("modctor", {l}, "one") : l \in Singles} ELSE {})
-  \cup (IF "modmulti" \in Ops THEN {Step("modmulti", {}, "default")} ELSE {})
-  \cup (IF "subctor" \in Ops THEN {Step("subctor", {l}, "one") : l \in SubBases} ELSE {})
+Step(op, on, form, par) == [op |-> op, on |-> on, form |-> form, par |-> par]
+IsYobj(s) == s.op \in {"yobj", "yobjsub"}
+\* the steps possible after history h
+Steps(h) ==
+  (IF "yobj" \in Ops THEN {Step("yobj", {}, "default", 0)} \cup {Step("yobj", {l}, "one", 0) : l \in Singles}
+                          \cup {Step("yobj", ls, "list", 0) : ls \in Lists} ELSE {})
+  \cup (IF "yobjsub" \in Ops
+        THEN UNION {{Step("yobjsub", {}, "inherit", j)} \cup {Step("yobjsub", {l}, "one", j) : l \in Singles}
+                    \cup {Step("yobjsub", ls, "list", j) : ls \in Lists} : j \in {x \in DOMAIN h : IsYobj(h[x])}}
+        ELSE {})
+  \cup (IF "ctor" \in Ops THEN {Step("ctor", {l}, "one", 0) : l \in Singles} ELSE {})
+  \cup (IF "multi" \in Ops THEN {Step("multi", {l}, "one", 0) : l \in Singles} ELSE {})
+  \cup (IF "modctor" \in Ops THEN {Step("modctor", {}, "default", 0)} ELSE {})
+  \cup (IF "modctorx" \in Ops THEN {Step("modctor", {l}, "one", 0) : l \in Singles} ELSE {})
+  \cup (IF "modmulti" \in Ops THEN {Step("modmulti", {}, "default", 0)} ELSE {})
+  \cup (IF "subctor" \in Ops THEN {Step("subctor", {l}, "one", 0) : l \in SubBases} ELSE {})
+  \* a round of loads: only when there is a tag to load, never twice in a row, never as the last step (loads follow anyway)
+  \cup (IF "load" \in Ops /\ h # <<>> /\ h[Len(h)].op # "load" /\ Len(h) + 1 < MaxSteps THEN {Step("load", {}, "-", 0)} ELSE {})
 
 (***************************************************************************)
 (* H                                                                       *)
 (***************************************************************************)
-Targets(s) == CASE s.op = "subctor" -> {} [] s.form = "default" -> Range(Default) [] OTHER -> s.on
-Want(h) == [l \in Loaders |-> {i \in DOMAIN h : l \in Targets(h[i])}]
+\* the loader classes the YAMLObject class of step i names: its own yaml_loader, else what its base class names
+RECURSIVE Named(_, _)
+Named(h, i) == IF h[i].form = "inherit" THEN Named(h, h[i].par)
+               ELSE IF h[i].form = "default" THEN Range(Default) ELSE h[i].on
+Targets(h, i) == CASE h[i].op \in {"subctor", "load"} -> {}
+                   [] IsYobj(h[i]) -> Named(h, i)
+                   [] h[i].form = "default" -> Range(Default)
+                   [] OTHER -> h[i].on
+Want(h) == [l \in Loaders |-> {i \in DOMAIN h : l \in Targets(h, i)}]
 \* what the statements demand of confined loader l on a document that carries the tag of step i (see H_Confinement.Sat)
 Req(h) == [l \in Confined |-> [i \in DOMAIN h |->
              [free |-> i \in Want(h)[l], mustErr |-> ClassOf(l) = "Safe" /\ i \notin Want(h)[l]]]]
@@ -84,26 +113,38 @@ Req(h) == [l \in Confined |-> [i \in DOMAIN h |->
 (* L                                                                       *)
 (***************************************************************************)
 Register(tab, ls, i) == [l \in Loaders |-> IF l \in ls THEN tab[l] \cup {i} ELSE tab[l]]
+\* cls.yaml_loader as Python finds it: the class body's own value, else the base class's, else the list object d that
+\* YAMLObject carries
+RECURSIVE Attr(_, _, _)
+Attr(h, d, i) == IF h[i].form = "inherit" THEN Attr(h, d, h[i].par)
+                 ELSE IF h[i].form = "default" THEN Range(d) ELSE h[i].on
 Do(s) ==
   LET i == Len(hist) + 1 IN
   /\ hist' = Append(hist, s)
   /\ deflist' = deflist                       \* nothing writes to the shared default list
-  /\ ltab' = CASE s.op = "yobj" ->            \* YAMLObjectMetaclass.__init__: for loader in cls.yaml_loader (a list) / the one class
-                    Register(ltab, IF s.form = "default" THEN Range(deflist) ELSE s.on, i)
+  /\ ltab' = CASE IsYobj(s) ->                \* YAMLObjectMetaclass.__init__: for loader in cls.yaml_loader (a list) / the one class
+                    Register(ltab, Attr(hist', deflist, i), i)
                [] s.op \in {"ctor", "multi"} -> Register(ltab, s.on, i)
                [] s.op \in {"modctor", "modmulti"} ->   \* __init__.py add_constructor: Loader is None -> the three classes, spelt out
                     Register(ltab, IF s.form = "default" THEN {"Loader", "FullLoader", "UnsafeLoader"} ELSE s.on, i)
-               [] OTHER -> ltab               \* subctor: the user class gets its own copy of the inherited table
+               [] OTHER -> ltab               \* subctor: the user class gets its own copy of the inherited table; load: reads only
   /\ want' = Want(hist')
   /\ req' = Req(hist')
 
 Init == /\ hist = <<>> /\ deflist = Default
         /\ ltab = [l \in Loaders |-> {}] /\ want = Want(<<>>) /\ req = Req(<<>>)
-Next == Len(hist) < MaxSteps /\ \E s \in Steps : Do(s)
+Next == Len(hist) < MaxSteps /\ \E s \in Steps(hist) : Do(s)
 Spec == Init /\ [][Next]_vars
 
 PreludeRefines == ltab = want
 DefaultFrozen == deflist = Default
+\* H does not depend on the order of definition: the demand for the tag of step i is the demand in the history that consists
+\* of step i and the chain of classes it derives from alone
+RECURSIVE Chain(_, _)
+Chain(h, i) == IF h[i].op = "yobjsub" THEN Append(Chain(h, h[i].par), [h[i] EXCEPT !.par = Len(Chain(h, h[i].par))])
+               ELSE <<h[i]>>
+OrderFree == \A l \in Confined : \A i \in DOMAIN hist :
+               LET c == Chain(hist, i) IN req[l][i] = Req(c)[l][Len(c)]
 \* negative control (must be violated): some history makes a confined class free for some tag, i.e. opting in exists
 NoOptIn == \A l \in Confined : \A i \in DOMAIN hist : ~req[l][i].free
 =============================================================================
